@@ -1,5 +1,4 @@
-\* C01 quick: one 3-slice ReliableOrdered message; every subset / order of deliveries of the 6 data packets
-\* (first transmission and one retransmission) and of the acks, then heal (with or without loss) and good rounds.
+\* C15 quick: 3-slice message, partial acks, three flushes
 SPECIFICATION Spec
 CONSTANTS
   ChSC <- Ch_RO
@@ -7,17 +6,17 @@ CONSTANTS
   Budget = 60000
   Workload <- WL_RO_3slices
   MaxFlushS = 1
-  MaxFlushC = 2
-  MaxTicks = 1
+  MaxFlushC = 3
+  MaxTicks = 2
   Dts = {300}
   MaxDeliver = 1
   HealDt = 300
   HealRounds = 3
   Bound = 3
   HealLose = {TRUE, FALSE}
-  Reorder = TRUE
+  Reorder = FALSE
   RecvAnywhere = FALSE
-  PropsOn <- P_C01
+  PropsOn <- P_C15
   Export = TRUE
 INVARIANT NoFlag
 INVARIANT ExportInv
